@@ -63,4 +63,13 @@ var props = map[string]propCfg{
 		Assume:    append([]string{"no fault or schedule dimension: decided as a conservation check over the allocation history the C11 seam records", "loop bodies are sequences of driver operations, not arbitrary loops"}, commonAssume...),
 		StateRule: "(driver, iteration count, body length / 8)",
 	},
+	"C27": {
+		Flavor: "worker-c27", Rewrite: "map", Level: "exploration",
+		QuickRuns: 1 << 30, QuickDL: 50 * time.Second, ThorDL: 30 * time.Minute, ThorSeeds: 5,
+		Rule: "a run = one program of the corpus (waroot/hello.wa, hello.wz, waroot/examples/*.wa, examples/misc/*.wa, tests/*.wa, every examples/*/wa.mod project, 4 generated driver programs), one configuration (target OS, with/without watstrip) and one tape-drawn schedule for the order of every range-over-map in the compiler (reverse everywhere, shuffle everywhere, or a per-site subset perturbed by reverse/rotate/swap/shuffle); the pipeline loader -> compiler_wat -> optional watstrip -> wat2wasm is run with the canonical order twice (repeat in one process) and once under the schedule; SHA-256 of WAT and wasm must be equal, and baselines must agree across the worker processes. Non-trivial = at least one range over a map with >= 2 keys had its order changed; distinct = distinct event-log digests.",
+		Real:      []string{"loader", "type checker", "SSA builder", "compiler_wat backend", "watstrip", "watutil.Wat2Wasm"},
+		Stub:      []string{"the order in which a range over a Go map yields keys (verifsim.Keys via AST-rewritten copies of 49 files)", "first-store serial numbers as canonical order for pointer/interface keys"},
+		Assume:    append([]string{"other sources of nondeterminism (goroutines, time, addresses) are not behind a seam; they are only covered by the repeat and cross-process comparisons", "a dependence on a 3-cycle of keys only would not be produced by Go's runtime either way"}, commonAssume...),
+		StateRule: "(program, configuration) pairs compiled under a perturbed order",
+	},
 }
